@@ -40,6 +40,8 @@ def run(tier, seed, t0):
     import scenarios
     vlib.build_harness()
     fscn = scenarios.generate("pubflags", 60 if tier == "quick" else 600, seed)
+    # publishers that outrun the transport (tiny water marks and handle queues, slow or stalled writes)
+    fscn += scenarios.generate("pressure", 80 if tier == "quick" else 1200, seed)
     ffiles, fsumm = vlib.run_sessions(PROP + "-flags", fscn, tier)
     fconsumed, fbad = vlib.validate_traces("ConnTrace", "ConnTrace.cfg", ffiles, timeout=1800, xmx="4g")
     v.absorb(fbad)
